@@ -90,6 +90,36 @@ fn replay(prop: &str, case: &Value) -> Result<(), String> {
     }
 }
 
+/// Loopback sockets closed by an earlier check stay in TIME_WAIT for a minute and occupy
+/// ephemeral ports. When several checks ran back to back (or in parallel) the range can be
+/// nearly exhausted, and a `bind`/`connect` failing with EADDRINUSE would be a machinery
+/// error of this run. Wait (bounded) for the backlog to expire before starting.
+fn wait_for_port_headroom() {
+    fn time_wait() -> Option<u64> {
+        let s = std::fs::read_to_string("/proc/net/sockstat").ok()?;
+        let line = s.lines().find(|l| l.starts_with("TCP:"))?;
+        let mut it = line.split_whitespace();
+        while let Some(w) = it.next() {
+            if w == "tw" {
+                return it.next()?.parse().ok();
+            }
+        }
+        None
+    }
+    let begun = std::time::Instant::now();
+    let mut said = false;
+    while let Some(tw) = time_wait() {
+        if tw < 12_000 || begun.elapsed() > std::time::Duration::from_secs(150) {
+            break;
+        }
+        if !said {
+            eprintln!("note: {tw} loopback sockets in TIME_WAIT from earlier runs; waiting for them to expire before starting");
+            said = true;
+        }
+        std::thread::sleep(std::time::Duration::from_secs(2));
+    }
+}
+
 fn main() {
     let args: Vec<String> = std::env::args().collect();
     if args.len() < 3 {
@@ -133,5 +163,6 @@ fn main() {
         "thorough" => Tier::Thorough,
         _ => usage(),
     };
+    wait_for_port_headroom();
     run(&prop, tier)
 }
